@@ -1951,3 +1951,56 @@ Proof.
   unfold gstep, adm, is_neutral, is_app. rewrite P1, C21, C2, C9, C13, C15, C19, C3, C4, C5, C1, C14, C6, C7, C8, C10, C11, C17, C18, C16.
   cbn [orb]. exact Hstay.
 Qed.
+
+Lemma gstep_full s g op :
+  Full s g -> Full (fst (gstep (s, g) op)) (snd (gstep (s, g) op)).
+Proof.
+  intros F. destruct (gstep_hs s g op F) as (H & S).
+  constructor; [apply gstep_inv; exact (f_inv _ _ F)|exact H|exact S].
+Qed.
+
+Theorem grun_full : forall i s g, Full s g -> Full (fst (grun i (s, g))) (snd (grun i (s, g))).
+Proof.
+  induction i as [|op t IH]; intros s g F; [exact F|].
+  unfold grun in *. cbn [fold_left].
+  pose proof (gstep_full s g op F) as H. destruct (gstep (s, g) op) as [s1 g1].
+  apply IH. exact H.
+Qed.
+
+Lemma full_start sd mrb sw p0 :
+  0 <= sd <= 1 -> params_valid p0 = true ->
+  Full (fst (start sd mrb sw p0)) (snd (start sd mrb sw p0)).
+Proof.
+  intros Hs Hv. pose proof (inv_start sd mrb sw p0 Hs Hv) as I.
+  unfold start in *. cbn [fst snd] in *. rewrite start_state in *.
+  destruct (remote_bi_spec sd (Z.to_nat mrb) Hs) as (N & K & V & S).
+  pose proof (remote_bi_allnone sd (Z.to_nat mrb)) as An.
+  rewrite (set_remote_limits_none _ _ _ An) in *.
+  constructor; [exact I| |].
+  - unfold HInv. cbn [log send unacked_data side]. constructor; cbn [send unacked_data side].
+    + intros id x L. apply V in L. discriminate.
+    + intros k id a b fin Hl. destruct k; discriminate.
+    + unfold usum. symmetry. apply msum_zero. intros k v Hin.
+      rewrite (V k v (In_lookup _ _ _ N Hin)). reflexivity.
+    + intros _ id x L. apply V in L. discriminate.
+  - constructor; unfold cnt, counted; cbn [send side next_reported_bi send_streams]; try lia.
+    + replace (filter _ _) with (@nil Z); [cbn; lia|]. symmetry.
+      assert (Hk : forall k, In k (keys (remote_bi sd (Z.to_nat mrb) [])) ->
+                ((id_init k =? sd) || ((id_dir k =? 0) && (id_index k <? 0))) = false).
+      { intros k Hin. destruct (K _ Hin) as (j & Hj & ->).
+        rewrite id_init_sid, id_index_sid by lia. destruct (1 - sd =? sd) eqn:E; [lia|].
+        cbn [orb]. destruct (j <? 0) eqn:E2; [lia|]. apply Bool.andb_false_r. }
+      revert Hk. generalize (keys (remote_bi sd (Z.to_nat mrb) [])). intros l Hk.
+      induction l as [|k t IH]; [reflexivity|].
+      cbn [filter]. rewrite (Hk k (or_introl eq_refl)). apply IH. intros k' Hk'. apply Hk. right. exact Hk'.
+    + intros k Hin _. destruct (K _ Hin) as (j & Hj & ->). apply id_dir_sid; lia.
+    + intros id x L. apply V in L. discriminate.
+Qed.
+
+Theorem reachable_full sd mrb sw p0 i s g :
+  0 <= sd <= 1 -> params_valid p0 = true ->
+  grun i (start sd mrb sw p0) = (s, g) -> Full s g.
+Proof.
+  intros Hs Hv R. pose proof (grun_full i _ _ (full_start sd mrb sw p0 Hs Hv)) as H.
+  unfold start in *. cbn [fst snd] in H. rewrite R in H. exact H.
+Qed.
